@@ -89,7 +89,9 @@ def oversample_linspace(a: np.ndarray, num: int):
     if num < 2:
         return a
     a = np.asarray(a, dtype=float)
-    return np.append(np.linspace(a[:-1], a[1:], num=num + 1)[:-1].T.flatten(), a[-1])
+    steps = np.linspace(a[:-1], a[1:], num=num + 1)[:-1]
+    steps[0] = a[:-1]  # start + 0 * step is not the start for -0.0 or next to an infinite neighbour (0 * inf)
+    return np.append(steps.T.flatten(), a[-1])
 
 
 def oversample_piecewise_constant(a: np.ndarray, num: int):
